@@ -39,6 +39,9 @@ func verifAnyVal(tag string, depth int) pcommon.Value {
 		rt.Assume(depth > 0)
 		v := pcommon.NewValueSlice()
 		verifAnyVal(tag+".elem", depth-1).CopyTo(v.Slice().AppendEmpty())
+		if depth > 1 {
+			v.Slice().AppendEmpty().SetInt(rt.Int64(tag + ".tail")) // a second element: shifts are visible
+		}
 		return v
 	case 6:
 		rt.Assume(depth > 0)
@@ -226,10 +229,14 @@ func VerifHarness_C17_traces() {
 	sp.SetStartTimestamp(pcommon.Timestamp(start))
 	sp.SetKind(ptrace.SpanKind(kind))
 	inSpan := put(sp.Attributes(), "span")
-	ev := sp.Events().AppendEmpty()
+	hasEvent := rt.Bool("hasEvent")
 	evName := one("event.name")
-	ev.SetName(evName)
-	inEv := put(ev.Attributes(), "event")
+	var inEv pcommon.Map
+	if hasEvent {
+		ev := sp.Events().AppendEmpty()
+		ev.SetName(evName)
+		inEv = put(ev.Attributes(), "event")
+	}
 	lk := sp.Links().AppendEmpty()
 	inLk := put(lk.Attributes(), "link")
 
@@ -241,7 +248,14 @@ func VerifHarness_C17_traces() {
 	oss := ors.ScopeSpans().At(0)
 	rt.Assert(oss.Spans().Len() == 1, "C17.traces.span_count")
 	osp := oss.Spans().At(0)
-	rt.Assert(osp.Events().Len() == 1, "C17.traces.event_count")
+	wantEvents := 0
+	if hasEvent {
+		wantEvents = 1
+	}
+	rt.Assert(osp.Events().Len() == wantEvents, "C17.traces.event_count")
+	if osp.Events().Len() != wantEvents {
+		return
+	}
 	rt.Assert(osp.Links().Len() == 1, "C17.traces.link_count")
 	rt.Assert(rt.And(uint64(osp.StartTimestamp()) == start, int32(osp.Kind()) == kind), "C17.traces.non_strings_untouched")
 	check := func(in, got pcommon.Map, id string) {
@@ -252,10 +266,12 @@ func VerifHarness_C17_traces() {
 	check(inRes, ors.Resource().Attributes(), "C17.traces.resource_attrs")
 	check(inScope, oss.Scope().Attributes(), "C17.traces.scope_attrs")
 	check(inSpan, osp.Attributes(), "C17.traces.span_attrs")
-	check(inEv, osp.Events().At(0).Attributes(), "C17.traces.event_attrs")
+	if hasEvent {
+		check(inEv, osp.Events().At(0).Attributes(), "C17.traces.event_attrs")
+		rt.Assert(osp.Events().At(0).Name() == o.verifE(evName), "C17.traces.event_name")
+	}
 	check(inLk, osp.Links().At(0).Attributes(), "C17.traces.link_attrs")
 	rt.Assert(osp.Name() == o.verifE(spanName), "C17.traces.span_name")
-	rt.Assert(osp.Events().At(0).Name() == o.verifE(evName), "C17.traces.event_name")
 	rt.Assert(rt.And(oss.Scope().Name() == o.verifE(scopeName), oss.Scope().Version() == o.verifE(scopeVer)), "C17.traces.scope_name_version")
 	rt.Assert(rt.And(len(osp.Name()) == len(spanName), len(oss.Scope().Name()) == len(scopeName)), "C17.traces.same_length")
 }
